@@ -781,7 +781,29 @@ const Family *find_family(const std::string &name, const std::string &tier)
   else if (name == "retry-long") f = retry_long_family(tier);
   else if (name == "adversary") f = adversary_family(tier);
   else if (name == "cache") f = cache_family(tier);
-  else if (name == "search-reinit") {
+  else if (name == "addrs-cache") {
+    // address lookups answered from the query cache, more than once and at different ages
+    f      = addrs_family(tier);
+    f.name = "addrs-cache";
+    f.cfgs.clear();
+    {
+      Cfg c            = cfg("lookups-b-cache", 1, 1, 0);
+      c.lookups        = "b";
+      c.domains        = {};
+      c.auto_io        = true;
+      c.qcache_max_ttl = 3600;
+      f.cfgs.push_back(c);
+    }
+    f.req_menu   = { 0, 3, 6 }; // getaddrinfo www.example.com for AF_UNSPEC, AF_INET, AF_INET6
+    f.req_repeat = true;
+    f.max_req    = 3;
+    f.replies    = { RK_DATA, RK_DATA_MULTI };
+    f.advances   = { 2000, 3000 };
+    f.max_adv    = 2;
+    f.faults     = {};
+    f.evmask     = EVBIT(EV_REQ) | EVBIT(EV_REPLY) | EVBIT(EV_ADVANCE);
+    f.max_depth  = 6;
+  } else if (name == "search-reinit") {
     // the search list and ndots come from the configuration FILE, and reinits happen before the request: one during
     // which the file cannot be read (must change nothing and must not block later reinits), one after the file changed
     f      = search_family(tier);
